@@ -133,7 +133,7 @@ void BSCMatrix::print()
 **************************************************************/
 COOMatrix* COOMatrix::transpose()
 {
-    COOMatrix* T = new COOMatrix(n_rows, n_cols, idx2, idx1, vals);
+    COOMatrix* T = new COOMatrix(n_cols, n_rows, idx2, idx1, vals);
     return T;
 }
 
@@ -145,7 +145,8 @@ BCOOMatrix* BCOOMatrix::transpose()
 
 CSRMatrix* CSRMatrix::transpose()
 {
-    CSCMatrix* T_csc = new CSCMatrix(n_rows, n_cols, idx1, idx2, vals); 
+    // The CSR arrays of A are the CSC arrays of A^T, which is n_cols x n_rows
+    CSCMatrix* T_csc = new CSCMatrix(n_cols, n_rows, idx1, idx2, vals); 
     CSRMatrix* T = T_csc->to_CSR();
     delete T_csc;
     return T;
@@ -161,7 +162,8 @@ BSRMatrix* BSRMatrix::transpose()
 
 CSCMatrix* CSCMatrix::transpose()
 {
-    CSRMatrix* T_csr = new CSRMatrix(n_rows, n_cols, idx1, idx2, vals); 
+    // The CSC arrays of A are the CSR arrays of A^T, which is n_cols x n_rows
+    CSRMatrix* T_csr = new CSRMatrix(n_cols, n_rows, idx1, idx2, vals); 
     CSCMatrix* T = T_csr->to_CSC();
     delete T_csr;
     return T;
